@@ -61,7 +61,7 @@ def tree_hash(variant):
         with open(f, "rb") as fh:
             h.update(hashlib.sha256(fh.read()).digest())
     for f in sorted(os.listdir(HERE)):
-        if f.endswith((".cpp", ".h", ".py", ".inc")):
+        if f.endswith((".cpp", ".h", ".py", ".inc", ".c")):
             with open(os.path.join(HERE, f), "rb") as fh:
                 h.update(f.encode())
                 h.update(hashlib.sha256(fh.read()).digest())
@@ -134,6 +134,11 @@ def build(variant="plain", verbose=True):
             jobs.append(cxx + ["-I" + HERE, "-c", os.path.join(HERE, "dumper.cpp"), "-o", obj("h_dumper.cpp")])
             jobs.append(["gcc", "-std=gnu99", "-w"] + vflags + ["-I" + os.path.join(REPO, "kerl"), "-c",
                          os.path.join(REPO, "kerl/kerl.c"), "-o", obj("kerl.c")])
+            # kerl.c as /repo/Makefile.am builds it (-DHAVE_CONFIG_H: GNU readline, continuation lines): `btcdeb-rl`, and
+            # harness/hx_kerl.c (the same code with a scripted line source, all symbols but krl_* made local after compiling)
+            krl = ["gcc", "-std=gnu99", "-w", "-DHAVE_CONFIG_H"] + vflags + inc + ["-I" + os.path.join(REPO, "kerl"), "-c"]
+            jobs.append(krl + [os.path.join(REPO, "kerl/kerl.c"), "-o", obj("kerl_rl.c")])
+            jobs.append(krl + [os.path.join(HERE, "hx_kerl.c"), "-o", obj("h_hx_kerl.c")])
             secp_flags = ["-O2"] + [f for f in vflags if f.startswith("-f") or f == "--coverage" or f == "-g"]
             for s in SECP_SRCS:
                 jobs.append(["gcc", "-w"] + secp_flags + SECP_DEFS +
@@ -145,15 +150,19 @@ def build(variant="plain", verbose=True):
                 if rc != 0:
                     raise BuildError("compile failed: " + " ".join(j[-4:]) + "\n" + o[-4000:])
             lib = [obj(s) for s in LIB_SRCS] + [obj(s) for s in SECP_SRCS] + [obj("kerl.c")]
+            rc, o = run(["objcopy", "-w", "-G", "krl_*", obj("h_hx_kerl.c")])
+            if rc != 0:
+                raise BuildError("objcopy failed: " + o[-2000:])
             link_flags = [f for f in vflags if f.startswith("-fsanitize") or f == "--coverage"]
             links = [
-                (["g++"] + link_flags + [obj("h_harness.cpp"), obj("h_hx_btcdeb.cpp")] + lib + ["-lreadline", "-o", os.path.join(scratch, "harness")]),
+                (["g++"] + link_flags + [obj("h_harness.cpp"), obj("h_hx_btcdeb.cpp"), obj("h_hx_kerl.c")] + lib + ["-lreadline", "-o", os.path.join(scratch, "harness")]),
                 (["g++"] + link_flags + [obj("h_dumper.cpp"), obj("h_hx_btcdeb.cpp")] + lib + ["-lreadline", "-o", os.path.join(scratch, "dumper")]),
                 (["g++"] + link_flags + [obj("btcdeb.cpp")] + lib + ["-lreadline", "-o", os.path.join(scratch, "btcdeb")]),
+                (["g++"] + link_flags + [obj("btcdeb.cpp")] + lib[:-1] + [obj("kerl_rl.c"), "-lreadline", "-o", os.path.join(scratch, "btcdeb-rl")]),
                 (["g++"] + link_flags + [obj("tap.cpp")] + lib + ["-lreadline", "-o", os.path.join(scratch, "tap")]),
                 (["g++"] + link_flags + [obj("btcc.cpp")] + lib + ["-lreadline", "-o", os.path.join(scratch, "btcc")]),
             ]
-            with ThreadPoolExecutor(max_workers=5) as ex:
+            with ThreadPoolExecutor(max_workers=6) as ex:
                 results = list(ex.map(run, links))
             for (rc, o), j in zip(results, links):
                 if rc != 0:
@@ -161,7 +170,7 @@ def build(variant="plain", verbose=True):
             tmp_out = out + ".tmp%d" % os.getpid()
             shutil.rmtree(tmp_out, ignore_errors=True)
             os.makedirs(tmp_out)
-            for b in ("harness", "dumper", "btcdeb", "tap", "btcc"):
+            for b in ("harness", "dumper", "btcdeb", "btcdeb-rl", "tap", "btcc"):
                 shutil.copy(os.path.join(scratch, b), os.path.join(tmp_out, b))
             if variant == "cov":
                 # keep notes files next to a copy of objects for gcov
